@@ -1,4 +1,4 @@
-import SgVerif.C10.Lemmas
+import SgVerif.C10.Hold3
 /-
 C10 — resource failures are reported to every live participant.  Property theorems (nothing else in this file).
 All theorems are over arbitrary states of the transition system of Model.lean (any number of hosts, links, actors,
@@ -142,6 +142,145 @@ theorem linkOff_fails_every_user (s : St) (l k : Nat) (hon : s.linkOn l = true) 
   · intro _; exact ha
   · intro hnin; exact absurd (List.mem_range.mpr hk) hnin
 
+/-- **Host-off analogue of `linkOff_fails_every_user`.**  `Host::turn_off` starts with `CpuImpl::turn_off`
+(`cancel_actions`): every execution or sleep placed on the host whose action is live has it FAILED and queued for
+`handle_ended_actions` (unless the kill loop that follows already finished it: see `failure_reaches_all_waiters`). -/
+theorem hostOff_fails_every_user (s : St) (h k : Nat) (hk : k < s.nActs) (hc : (s.acts k).kind ≠ .comm)
+    (hh : h ∈ (s.acts k).hosts) (ha : (s.acts k).action = some .started) :
+    ((cpuCancelActions s h).acts k).action = some .failed ∧ k ∈ (cpuCancelActions s h).failedQ := by
+  have : cpuCancelActions s h = cpuPhase h s := rfl
+  rw [this]
+  unfold cpuPhase
+  apply failFold_hits
+  left
+  exact ⟨List.mem_range.mpr hk, ha, hc, hh⟩
+
+/-- **`handle_ended_actions` reports every failed action.**  In ANY state, for every activity `k` of the failed action set
+that is hit by a resource failure (`Hit`:
+a communication with a failed action or an endpoint host off, an execution with a host off) and every answerable
+issuer `a` registered on it: when `handle_ended_actions` returns, `a` has been answered *during that call* — by `k` with
+the exception of the spec table (NetworkFailureException / HostFailureException), or, when `a` sits in a wait_any, by
+another activity of its set that was finished earlier in the same call — unless an assertion of the kernel fired. -/
+theorem handle_ended_reports_every_failed_action (t : St) (k a : Nat) (hin : k ∈ t.failedQ) (hit : Hit t k)
+    (ha : Answerable t a) (hm : a ∈ (t.acts k).simcalls) :
+    DoneR t (handleEndedAll t) a k (.exc (specExc (t.acts k).kind)) :=
+  done_handleEnded _ t ⟨ha, hm, hit, hin, rfl⟩ (Nat.le_max_right _ _)
+
+/-- how a resource failure event hits a running activity -/
+inductive HitBy (s : St) (k : Nat) : Ev → Prop
+  /-- a link of the route of a communication -/
+  | link (l : Nat) : s.linkOn l = true → (s.acts k).kind = .comm → l ∈ (s.acts k).links → HitBy s k (.linkOff l)
+  /-- a host on which an execution runs -/
+  | hostExec (h : Nat) : s.hostOn h = true → (s.acts k).kind = .exec → h ∈ (s.acts k).hosts → HitBy s k (.hostOff h)
+
+/-- the issuer does not live on the host that is turned off (otherwise it is killed: `killed_on_host_off`) -/
+def Survives (s : St) (a : Nat) : Ev → Prop
+  | .hostOff h => (s.actors a).host ≠ h
+  | _ => True
+
+/-- **failure_reaches_all_waiters (run level).**  Take ANY state `s` (hence every reachable one), a RUNNING
+activity `k` (its action is live) that uses a link / a host that is on, and turn that resource off (`e`); let maestro
+finish its iteration (`handle_ended_actions`).  Then EVERY simcall registered on `k` whose issuer `a` is answerable
+(blocked, alive, on a host that is on) and does not itself live on the failed host has been answered within these two
+steps: by `k` with the failure kind of the spec table — NetworkFailureException for a communication,
+HostFailureException for an execution — or (wait_any) by another activity of its set that finished in the same
+iteration; or an assertion of the kernel fired.  Nothing is assumed on the rest of the state: any number of actors,
+activities, other pending failures, wait_any sets, dying actors.
+Composition of `linkOff_fails_every_user` / `hostOff_fails_every_user`, the kill loop of `HostImpl::turn_off`
+(`ActorImpl::exit` of every actor of the host, which may itself finish `k`), and `handle_ended_reports_every_failed_action`.
+The third row of the spec table — a communication whose *peer's* host fails, where the action is failed by the dying peer's
+`exit()` — is `failure_reaches_all_waiters_peer_host_partial` below. -/
+theorem failure_reaches_all_waiters (s : St) (e : Ev) (k a : Nat) (hk : k < s.nActs)
+    (hrun : (s.acts k).action = some .started) (hit : HitBy s k e)
+    (ha : Answerable s a) (hs : Survives s a e) (hm : a ∈ (s.acts k).simcalls) :
+    DoneR s (run s [e, .handleEnded]) a k (.exc (specExc (s.acts k).kind)) := by
+  show DoneR s (step (step s e) .handleEnded) a k _
+  by_cases hcr : s.crashed = true
+  · left; simp [step, hcr]
+  · cases hit with
+    | link l hon hc hl =>
+      have p := pend_linkOff s l k a hon hk hc hl hrun ha hm
+      have e1 : Ext s (linkOff s l) := (simp_linkOff a s l).ext
+      have h1 : step s (.linkOff l) = linkOff s l := by simp [step, hcr]
+      rw [h1, hc]
+      by_cases hc2 : (linkOff s l).crashed = true
+      · left; simp [step, hc2]
+      · have h2 : step (linkOff s l) .handleEnded = handleEndedAll (linkOff s l) := by simp [step, hc2]
+        rw [h2]
+        exact done_of_res _ e1 (Or.inr (Or.inr (Or.inr p))) (Nat.le_max_right _ _)
+    | hostExec h hon hc hh =>
+      have h1 : step s (.hostOff h) = hostOff s h := by simp [step, hcr]
+      rw [h1, hc, hostOff_eq s h hon]
+      have hah : (s.actors a).host ≠ h := hs
+      have ha1 : Answerable ({ s with hostOn := upd s.hostOn h false } : St) a := by
+        obtain ⟨x1, x2, x3⟩ := ha
+        refine ⟨x1, ?_, x3⟩
+        simp [upd, hah, x2]
+      obtain ⟨e4, r4⟩ := res_hostOff_exec ({ s with hostOn := upd s.hostOn h false } : St) h k a (by simp [upd]) hk hc hh hrun
+        ha1 hm
+      -- observations of `s` and of the state with the host marked off coincide
+      have conv : ∀ (t' : St) (o : Obs), newIn ({ s with hostOn := upd s.hostOn h false } : St) t' o → newIn s t' o :=
+        fun _ _ h => h
+      generalize maestroPhase h (killPhase h (cpuPhase h ({ s with hostOn := upd s.hostOn h false } : St))) = t4 at e4 r4
+      by_cases hc2 : t4.crashed = true
+      · left; simp [step, hc2]
+      · have h2 : step t4 .handleEnded = handleEndedAll t4 := by simp [step, hc2]
+        rw [h2]
+        have := done_of_res (a := a) (k := k) (r := .exc .host) (max (t4.nActs + 1) t4.failedQ.length) e4 r4 (Nat.le_max_right _ _)
+        exact this
+
+/-- **failure_reaches_all_waiters, peer's host (run level).**  The third row of the spec table: a RUNNING communication `k`
+(live action) held by a live actor `b` of host `h` — it is in `b`'s `activities_`: `b` is its sender or receiver, blocked on
+it or not — and `h` is turned off.  For EVERY state: every answerable issuer `a` registered on `k` that lives on another
+host (the peer, a third party, a wait_any) has been answered by the end of the maestro iteration (`turn_off` +
+`handle_ended_actions`) — by `k` with NetworkFailureException, or by another activity of its wait_any finished in that
+iteration — or an assertion fired.  Composition through the kill loop of `HostImpl::turn_off`: the kills of the other actors
+of the host leave `k` held or doom it, `b`'s own `exit()` cancels it (first loop: finished on the spot; second loop: FAILED and
+queued), `handle_ended_actions` finishes it.
+`_partial`: the hypothesis `Private s h b` (no other actor of `h` waits on an activity on which `b` is registered) is exactly what
+the finding `host-off-marks-peer-dying-without-exit` makes necessary on the current code: without it `b` can be marked dying by
+the `finish` of a co-hosted actor's synchro and then skipped by `turn_off`, so that `k` is never cancelled and `a` is told at
+`k`'s natural completion date at best.  With the proposed fix the hypothesis can be dropped.  (Detached sends — not in anybody's
+`activities_` — and `Comm::sendto` comms of maestro's list are not covered by this statement.) -/
+theorem failure_reaches_all_waiters_peer_host_partial (s : St) (h k a b : Nat) (hon : s.hostOn h = true)
+    (hb : b < s.nActors) (hbh : (s.actors b).host = h) (hbe : (s.actors b).ended = false)
+    (hbw : (s.actors b).wannadie = false) (hheld : k ∈ (s.actors b).activities) (hp : Private s h b)
+    (hk : (s.acts k).kind = .comm) (hrun : (s.acts k).state = .running) (hact : (s.acts k).action = some .started)
+    (ha : Answerable s a) (hah : (s.actors a).host ≠ h) (hm : a ∈ (s.acts k).simcalls) :
+    DoneR s (run s [.hostOff h, .handleEnded]) a k (.exc .net) := by
+  show DoneR s (step (step s (.hostOff h)) .handleEnded) a k _
+  by_cases hcr : s.crashed = true
+  · left; simp [step, hcr]
+  · have h1 : step s (.hostOff h) = hostOff s h := by simp [step, hcr]
+    rw [h1, hostOff_eq s h hon]
+    have ha1 : Answerable ({ s with hostOn := upd s.hostOn h false } : St) a := by
+      obtain ⟨x1, x2, x3⟩ := ha
+      refine ⟨x1, ?_, x3⟩
+      simp [upd, hah, x2]
+    have p1 : HoldS ({ s with hostOn := upd s.hostOn h false } : St) b a k := ⟨ha1, hm, hk, hact, hrun, hheld⟩
+    have ho1 : HolderOK ({ s with hostOn := upd s.hostOn h false } : St) h b := ⟨hbh, hbe, hbw, hp⟩
+    obtain ⟨e4, r4⟩ := res_hostOff_comm ({ s with hostOn := upd s.hostOn h false } : St) h k a b (by simp [upd]) hb p1 ho1
+    generalize maestroPhase h (killPhase h (cpuPhase h ({ s with hostOn := upd s.hostOn h false } : St))) = t4 at e4 r4
+    by_cases hc2 : t4.crashed = true
+    · left; simp [step, hc2]
+    · have h2 : step t4 .handleEnded = handleEndedAll t4 := by simp [step, hc2]
+      rw [h2]
+      have := done_of_res (a := a) (k := k) (r := .exc .net) (max (t4.nActs + 1) t4.failedQ.length) e4 r4 (Nat.le_max_right _ _)
+      exact this
+
+/-- non-vacuity: the textbook case — sender (actor 0, host 0) and receiver (actor 1, host 1) in a rendez-vous, host 0 fails:
+the receiver meets the hypotheses with the sender as holder, and is answered NetworkFailureException in that iteration -/
+example :
+    let s := run (init [0, 1] (fun _ _ => [0])) [.isendWait 0 0, .irecvWait 1 0]
+    s.hostOn 0 = true ∧ 0 < s.nActors ∧ (s.actors 0).host = 0 ∧ (s.actors 0).ended = false ∧ (s.actors 0).wannadie = false ∧
+    0 ∈ (s.actors 0).activities ∧ (s.acts 0).kind = .comm ∧ (s.acts 0).state = .running ∧
+    (s.acts 0).action = some .started ∧ Answerable s 1 ∧ (s.actors 1).host ≠ 0 ∧ 1 ∈ (s.acts 0).simcalls ∧
+    newIn s (run s [.hostOff 0, .handleEnded]) (.answer 1 (.exc .net) 0) := by
+  refine ⟨by decide, by decide, by decide, by decide, by decide, by decide, by decide, by decide, by decide, ?_, by decide,
+    by decide, ?_⟩
+  · unfold Answerable; decide
+  · unfold newIn; decide
+
 /-! ### killed_on_host_off
 Full-strength statement: `s.hostOn h → a < s.nActors → (s.actors a).host = h → ¬ (s.actors a).ended →
 ((hostOff s h).actors a).wannadie = true`, and the on_exit callbacks of a dying actor get `failed = true`.
@@ -176,6 +315,67 @@ theorem killed_on_host_off_partial (s : St) (a : Nat) :
       (by simp [St.emit, ht])
     simpa [St.setActor, St.emit] using this
 
+/-- **killed_on_host_off (run level).**  For EVERY state, when a host that is on is turned off, every actor of that host
+that has not ended is dying when `Host::turn_off` returns — whatever the `finish` / `cancel` calls made in between for
+the other actors of the host, for its peers and for maestro's activities — is still dying after the
+`handle_ended_actions` that ends the maestro iteration (`wannadie` is never reset: `Mono.wd`, proved for every kernel
+function of the iteration), and its on_exit callbacks will get `failed = true`. -/
+theorem killed_on_host_off (s : St) (h a : Nat) (hon : s.hostOn h = true) (ha : a < s.nActors)
+    (hh : (s.actors a).host = h) (he : (s.actors a).ended = false) :
+    ((hostOff s h).actors a).wannadie = true ∧
+    (∀ n, ((handleEnded n (hostOff s h)).actors a).wannadie = true) ∧
+    (s.crashed = false → ((run s [.hostOff h, .handleEnded]).actors a).wannadie = true) ∧
+    (∀ t : St, (t.actors a).wannadie = true → Obs.exit a true ∈ (actorEnd t a).obs) := by
+  have h1 := hostOff_wd s h a hon ha hh he
+  refine ⟨h1, fun n => (mono_handleEnded n _).wd a h1, fun hc => ?_, (killed_on_host_off_partial s a).2⟩
+  show ((step (step s (.hostOff h)) .handleEnded).actors a).wannadie = true
+  have e1 : step s (.hostOff h) = hostOff s h := by simp [step, hc]
+  rw [e1]
+  by_cases hc2 : (hostOff s h).crashed = true
+  · simp [step, hc2]; exact h1
+  · have e2 : step (hostOff s h) .handleEnded = handleEndedAll (hostOff s h) := by simp [step, hc2]
+    rw [e2]
+    exact (mono_handleEnded _ _).wd a h1
+
+/-! Full-strength second half — **`ActorImpl::exit()` runs for every live actor of the host** (its waiting synchros are
+cancelled and finished, its leftover activities cancelled, it is put back in the run list to die):
+`s.hostOn h → a < s.nActors → (s.actors a).host = h → ¬ ended → ¬ wannadie → newIn s (hostOff s h) (.kill a)`.
+This is FALSE on the current code (`killed_on_host_off_exit_counterexample`, finding
+`host-off-marks-peer-dying-without-exit`): when an earlier actor of the same host is killed, the `finish()` of its
+waiting synchro runs `unregister_first_simcall` on a co-hosted peer, which *marks* the peer dying
+(`issuer->set_wannadie()`); `HostImpl::turn_off` then skips it (`ActorImpl::kill` ignores `wannadie()` actors): the peer
+is never rescheduled, never runs its on_exit callbacks, its other activities are never cancelled.
+Proved: the statement under the exact excluding hypothesis `Private s h a` (no other actor of `h` waits on an activity
+on which `a` is registered). -/
+theorem killed_on_host_off_exit_partial (s : St) (h a : Nat) (hon : s.hostOn h = true) (ha : a < s.nActors)
+    (hh : (s.actors a).host = h) (he : (s.actors a).ended = false) (hw : (s.actors a).wannadie = false)
+    (hp : Private s h a) : newIn s (hostOff s h) (.kill a) :=
+  hostOff_kill_new s h a hon ha hh he hw hp
+
+/-- two actors of host 0 in a rendez-vous with each other; host 0 is turned off: actor 0 is killed, `finish` of the
+comm marks actor 1 dying, `turn_off` then skips actor 1: `ActorImpl::exit` never runs for it (on the real library the
+run ends with actor 1 reported in a deadlock, its on_exit callback never called: corpus.txt) -/
+theorem killed_on_host_off_exit_counterexample :
+    let s := run (init [0, 0] (fun _ _ => [])) [.isendWait 0 0, .irecvWait 1 0]
+    s.hostOn 0 = true ∧ (s.actors 1).host = 0 ∧ (s.actors 1).ended = false ∧ (s.actors 1).wannadie = false ∧
+    ((hostOff s 0).actors 1).wannadie = true ∧ Obs.kill 0 ∈ (hostOff s 0).obs ∧ Obs.kill 1 ∉ (hostOff s 0).obs := by
+  decide
+
+/-- non-vacuity of `killed_on_host_off` / `killed_on_host_off_exit_partial`: sender on host 0, receiver on host 1 -/
+example :
+    let s := run (init [0, 1] (fun _ _ => [0])) [.isendWait 0 0, .irecvWait 1 0]
+    s.hostOn 0 = true ∧ 0 < s.nActors ∧ (s.actors 0).host = 0 ∧ (s.actors 0).ended = false ∧
+    (s.actors 0).wannadie = false ∧ Private s 0 0 := by
+  refine ⟨by decide, by decide, by decide, by decide, by decide, ?_⟩
+  intro c j hc hh hj
+  -- the only other actor lives on host 1; the unallocated actor records wait on nothing
+  by_cases h1 : c = 1
+  · subst h1; exact absurd hh (by decide)
+  · have : ((run (init [0, 1] (fun _ _ => [0])) [.isendWait 0 0, .irecvWait 1 0]).actors c).waiting = [] := by
+      simp [run, step, init, alive, isend, irecv, waitOn, register, findMatching, commStart, startAsserts, St.setActor,
+        St.setAct, upd, mboxRemove, terminal, hc, h1]
+    rw [this] at hj; cases hj
+
 /-! ### no_orphan_block
 Full-strength statement: in every reachable state with an empty failed-action set, every live blocked actor waits
 only on `Live` activities (unmatched, or running with a started action all of whose links are on).
@@ -208,6 +408,40 @@ theorem no_orphan_block_partial_comm (s : St) (k : Nat) : ((finishComm s k).acts
     | cons x xs ih => intro t h; exact ih _ (step t x h)
   apply fold
   simp [St.setAct]
+
+/-- **no_orphan_block (global invariant, every reachable state).**  For EVERY platform, EVERY sequence of events of the
+transition system (communications, executions, sleeps, waits, wait_any, tests, completions, actor ends, hosts and links
+going off and on, `handle_ended_actions` — well formed or not, any length), the state `s` reached satisfies:
+ * `NoLost s`: every activity whose action is FAILED sits in the failed action set — no failure of an action is ever
+   dropped between the moment it happens (`Action::cancel`, `cancel_actions`, an action created on a resource that is off)
+   and the `finish` of its activity; hence
+ * nobody stays blocked on such an activity: every answerable actor registered on a communication whose action failed (a
+   link of its route went off, or a dying peer / maestro cancelled it), or on an execution whose action failed while one
+   of its hosts is off, is answered by the very next `handle_ended_actions` with the exception of the spec table (or by
+   another activity of its wait_any set finished in that call, or an assertion of the kernel fires).
+What the statement does NOT cover, precisely: activities that lose their completion event without their *action* being
+failed — (i) a detached send in flight whose sender's host fails (nobody cancels it: the receiver is told at the natural
+completion date, see NOTES "late reports"); (ii) a communication cancelled while still unmatched (it has no action: a
+third party that waits on somebody else's unmatched comm is not woken by the owner's death); (iii) an execution whose
+action was cancelled without any host failure (its waiters are answered too, with CancelException: not a failure kind of
+the spec table, so it is outside `Hit`); and the activities of an actor marked dying without `exit()`
+(`killed_on_host_off_exit_counterexample`). -/
+theorem no_orphan_block (hosts : List Nat) (route : Nat → Nat → List Nat) (es : List Ev) :
+    NoLost (run (init hosts route) es) ∧
+    ∀ k a, ((run (init hosts route) es).acts k).action = some .failed → Hit (run (init hosts route) es) k →
+      Answerable (run (init hosts route) es) a → a ∈ ((run (init hosts route) es).acts k).simcalls →
+      DoneR (run (init hosts route) es) (handleEndedAll (run (init hosts route) es)) a k
+        (.exc (specExc ((run (init hosts route) es).acts k).kind)) := by
+  have h := nl_run es _ (nl_init hosts route)
+  exact ⟨h, fun k a hf hit ha hm => handle_ended_reports_every_failed_action _ k a (h k hf) hit ha hm⟩
+
+/-- non-vacuity of `no_orphan_block`: after the link failure the comm's action is FAILED (and queued), the receiver is
+answerable and registered -/
+example :
+    let s := run (init [0, 1] (fun _ _ => [0])) [.isendWait 0 0, .irecvWait 1 0, .linkOff 0]
+    (s.acts 0).action = some .failed ∧ 0 ∈ s.failedQ ∧ Hit s 0 ∧ Answerable s 1 ∧ 1 ∈ (s.acts 0).simcalls := by
+  refine ⟨by decide, by decide, Or.inl ⟨by decide, Or.inr (Or.inr (by decide))⟩, ?_, by decide⟩
+  unfold Answerable; decide
 
 /-! ### the abort: before fix commit fcd7d0e96a CommImpl::start asserted that both endpoint hosts are on
 (with `startAsserts := true` in Model.lean both witnesses below evaluate to `crashed = true`).  They are kept as
@@ -248,5 +482,55 @@ example :
 example :
     let s := run (init [1] (fun _ _ => [0])) [.execStart 0 0, .wait 0 0, .hostOff 0, .handleEnded]
     Obs.answer 0 (.exc .host) 0 ∈ s.obs := by decide
+
+/-! ### non-vacuity of the run-level theorems -/
+
+/-- `failure_reaches_all_waiters`, link: the rendez-vous in flight; sender and receiver both meet the hypotheses … -/
+example :
+    let s := run (init [0, 1] (fun _ _ => [0])) [.isendWait 0 0, .irecvWait 1 0]
+    0 < s.nActs ∧ (s.acts 0).action = some .started ∧ (s.acts 0).state = .running ∧ HitBy s 0 (.linkOff 0) ∧
+    Answerable s 0 ∧ Answerable s 1 ∧ 0 ∈ (s.acts 0).simcalls ∧ 1 ∈ (s.acts 0).simcalls ∧ Survives s 1 (.linkOff 0) := by
+  refine ⟨by decide, by decide, by decide, HitBy.link 0 (by decide) (by decide) (by decide), ?_, ?_, by decide, by decide, trivial⟩
+  · unfold Answerable; decide
+  · unfold Answerable; decide
+/-- … and the conclusion is the first alternative for both: answered by the comm itself, NetworkFailureException -/
+example :
+    let s := run (init [0, 1] (fun _ _ => [0])) [.isendWait 0 0, .irecvWait 1 0]
+    newIn s (run s [.linkOff 0, .handleEnded]) (.answer 0 (.exc .net) 0) ∧
+    newIn s (run s [.linkOff 0, .handleEnded]) (.answer 1 (.exc .net) 0) := by
+  unfold newIn; decide
+
+/-- `failure_reaches_all_waiters`, host: actor 0 lives on host 1 and waits for its execution on host 0, which fails -/
+example :
+    let s := run (init [1] (fun _ _ => [0])) [.execStart 0 0, .wait 0 0]
+    0 < s.nActs ∧ (s.acts 0).action = some .started ∧ HitBy s 0 (.hostOff 0) ∧ Answerable s 0 ∧
+    Survives s 0 (.hostOff 0) ∧ 0 ∈ (s.acts 0).simcalls ∧
+    newIn s (run s [.hostOff 0, .handleEnded]) (.answer 0 (.exc .host) 0) := by
+  refine ⟨by decide, by decide, HitBy.hostExec 0 (by decide) (by decide) (by decide), ?_, ?_, by decide, ?_⟩
+  · unfold Answerable; decide
+  · show (_ : Nat) ≠ 0; decide
+  · unfold newIn; decide
+
+/-- a wait_any over two comms crossing the same link: the issuer is answered by the first one finished, the other
+registration is dropped (third alternative of `DoneR` for activity 1) -/
+example :
+    let s := run (init [0, 1, 1] (fun _ _ => [0])) [.isend 0 0 false, .isend 0 1 false, .irecvWait 1 0, .irecvWait 2 1, .waitAny 0 [0, 1]]
+    Answerable s 0 ∧ 0 ∈ (s.acts 1).simcalls ∧ HitBy s 1 (.linkOff 0) ∧
+    newIn s (run s [.linkOff 0, .handleEnded]) (.answer 0 (.exc .net) 0) ∧
+    ¬ newIn s (run s [.linkOff 0, .handleEnded]) (.answer 0 (.exc .net) 1) := by
+  refine ⟨?_, by decide, HitBy.link 0 (by decide) (by decide) (by decide), ?_, ?_⟩
+  · unfold Answerable; decide
+  · unfold newIn; decide
+  · unfold newIn; decide
+
+/-- `handle_ended_reports_every_failed_action` and `hostOff_fails_every_user`: hypotheses met -/
+example :
+    let t := run (init [0, 1] (fun _ _ => [0])) [.isendWait 0 0, .irecvWait 1 0, .linkOff 0]
+    0 ∈ t.failedQ ∧ Hit t 0 ∧ Answerable t 1 ∧ 1 ∈ (t.acts 0).simcalls := by
+  refine ⟨by decide, Or.inl ⟨by decide, Or.inr (Or.inr (by decide))⟩, ?_, by decide⟩
+  unfold Answerable; decide
+example :
+    let s := run (init [1] (fun _ _ => [0])) [.execStart 0 0, .wait 0 0]
+    0 < s.nActs ∧ (s.acts 0).kind ≠ .comm ∧ 0 ∈ (s.acts 0).hosts ∧ (s.acts 0).action = some .started := by decide
 
 end SgVerif.C10
